@@ -228,6 +228,7 @@ def run(prog, chk):
                     chk.ok("C01.c", f, "all %d tree-link writes of remove() flow into the upward rebalancing loop" % len(links), "%s:%s" % (f.file, f.line), "MPT through the while(parent) head", evals=len(links))
                 else:
                     chk.bad("C01.c", f, "remove-path-without-rebalance", "%s:%s" % (f.file, f.line), "a path through remove() bypasses the upward rebalancing loop (or the structural writes vanished: %d link writes found)" % len(links))
+                transplant_refresh(chk, f, loops)
     # ------------------------------------------------------------------ f
     for cls in TREE:
         for tn, fs in sorted(C.class_insts(prog, cls).items()):
@@ -542,3 +543,69 @@ def balance_bookkeeping(prog, chk):
                             "rebal() with slope %+d %s: the subtree stays (or becomes) out of balance / the parent keeps pointing at the old subtree root" % (bad[0], bad[1]), evals=n_ev)
                 else:
                     chk.ok("C01.l", f, "rebal: slope +-2 -> shift on the holding link, else untouched", where, "15 valuations (slope x parent link)", evals=n_ev)
+
+
+def transplant_refresh(chk, f, loops):
+    """C01.m - the node moved into the removed node's place (`*cell`) keeps the height of its old position.  The bounded walk from the
+    replacement's old parent reaches it unless it stops early (height unchanged); on that early exit the node has to be refreshed
+    explicitly before the walk continues above it."""
+    if "C01.m" not in chk.rules:
+        chk.rule("C01.m", "MPT: in remove() every early exit (unchanged height) of the walk that is bounded by the removed node's parent passes "
+                          "updateHeightAndSlope() on the node now stored in `*cell` before the upward walk continues", floor=2)
+    where = "%s:%s" % (f.file, f.line)
+    # the bounded walk: a rebal loop one of whose exits compares the walked variable with another local
+    done = set()
+    for c, v, lb in loops:
+        key = frozenset(lb)
+        if key in done:
+            continue
+        done.add(key)
+        vn = v["n"]
+        bound_exit, early = [], []
+        for u in lb:
+            blk = f.blocks[u]
+            if blk.get("cond") is None or len(blk["succ"]) != 2:
+                continue
+            for s_ in blk["succ"]:
+                if s_ is None or s_ in lb:
+                    continue
+                cns = [fin._canon(f, a_, t_) for a_, t_ in fin.edge_atoms(f, blk, s_)]
+                if any(cn[0] != "val" and cn[1] == "==" and vn in (cn[0], cn[2]) and re.match(r"^\w+$", cn[0]) and re.match(r"^\w+$", cn[2]) for cn in cns):
+                    bound_exit.append((u, s_))
+                elif any(cn[0] != "val" and cn[1] == "==" and any(x.endswith("->height") for x in (cn[0], cn[2])) for cn in cns):
+                    early.append((u, s_))
+        if not bound_exit:
+            continue        # the final walk up to the root: nothing above it is skipped
+        others = [lb2 for c2, v2, lb2 in loops if frozenset(lb2) != key]
+        tgt = set((h, 0) for lb2 in others for h in lb2 if any(p_ not in lb2 for p_ in f.preds.get(h, []))) | {f.exit_pos()}
+        defs = q.local_defs(f)
+        upd = []
+        for i in q.calls(f):
+            if not (f.nodes[i].get("callee") or "").endswith("::updateHeightAndSlope"):
+                continue
+            o = q.call_object(f, i)
+            if o is not None and q.no_casts(f.r(o)).strip("()") in ("*cell", "*(cell"):
+                upd.append(i)
+            elif o is not None:
+                # `parent = *cell; parent->updateHeightAndSlope();` - the walked variable re-seated on the transplanted node
+                on = f.nodes[f.strip(o)]
+                if on["k"] == "DeclRefExpr" and on["ref"].get("dk") == "local":
+                    rd = q.reaching_def(f, on["ref"]["id"], i, defs)
+                    if rd is not None and q.no_casts(f.r(rd)).strip("()") == "*cell":
+                        upd.append(i)
+        if not early:
+            chk.ok("C01.m", f, "the bounded walk has no early exit: it reaches the transplanted node", where, "loop exits", nontrivial=False)
+            continue
+        bad = None
+        for u, s_ in early:
+            # the early exit may lie inside the loop body (a `break`): follow from the edge's target to the next walk / the exit
+            pth = f.find_path((s_, 0), tgt, avoid=q.pos_of(f, upd), after_src=False)
+            if pth is not None:
+                bad = pth
+        if bad:
+            chk.bad("C01.m", f, "transplanted-node-not-refreshed", where,
+                    "the walk that starts at the replacement's old parent stops early when a height did not change (lines %s) and the upward walk goes "
+                    "on above the removed node, but the node now in `*cell` still carries the height and slope of its old position: later balance "
+                    "decisions are taken on a stale, too small height" % f.path_lines(bad)[:8], evals=len(early) + 1)
+        else:
+            chk.ok("C01.m", f, "early exit of the bounded walk refreshes `*cell`", where, "MPT from %d early exit edge(s)" % len(early), evals=len(early) + 1)
